@@ -231,7 +231,15 @@ class WrappersDriver:
                 if self.warm != [self.first_holder if method else "fn", "warm"]:
                     self.first_use = f"first use of the wrapper failed: {self.warm!r} {t!r}"[:200]
                 self.warm = None
-            w.do("1", "call", run)
+            if is_traced and self.s["depth"] == 1:
+                # the call is made by a task that OUTLIVED the scope it was started in (a plain task; that scope has been left
+                # and has completed): the helper behaves the same there
+                w.do("1", "sscope", 900, [], None)
+                w.do("1", "plainspawn", "late")
+                w.do("1", "leave", "return")
+                w.do("late", "call", run)
+            else:
+                w.do("1", "call", run)
             if self.s["kind"].startswith("asynchronous"):
                 self.started.wait(60)
                 w.loop.quiesce()
